@@ -32,6 +32,9 @@ KINC = "metaflush+reopen/include-namespace-and-prefix"
 KNSV = "dirfile_standards/fragment-namespace-ignored"
 KREPRZ = "metaflush+reopen/dot-z-code-in-affixed-fragment"
 KINH = "metaflush+reopen/inherited-fragment-attributes-not-persisted"
+KMOVREF = "move/reference-field-keeps-old-name"
+KDEREF = "delete-deref/client-fragment-not-marked-modified"
+KDELREF = "delete/reference-update-not-marked-modified"
 
 
 def hx(b):
@@ -803,6 +806,24 @@ def hidden_late_type(lines):
     return None
 
 
+def deref_diff(a, b):
+    """every difference is a literal (before) that is a scalar field code again (after)"""
+    ta, tb = a.split(), b.split()
+    if len(ta) != len(tb):
+        return False
+    n = 0
+    for k, (x, y) in enumerate(zip(ta, tb)):
+        if x == y:
+            continue
+        if x[:1] == "L" and y[:1] == "C":
+            n += 1
+        elif (k == 2 and ta[0] == "LINCOM") or (k == 3 and ta[0] in ("RECIP", "POLYNOM")):
+            continue
+        else:
+            return False
+    return n > 0
+
+
 def first_token_raw(ln):
     """the first token of a written line, escapes left in place"""
     i = 0
@@ -934,7 +955,11 @@ def main():
             (KINC, ["OPEN 0", "INC 0 %s %s %s -" % (hx(b"sub"), hx(b"ns"), hx(b"p")), "ADD CONST 1 - %s 008 3 0" % hx(b"ns.pc")]),
             (KNSV, ["OPEN 0", "INC 0 %s %s - -" % (hx(b"sub"), hx(b"ns")), "STD 9"]),
             (KREPRZ, ["OPEN 0", "INC 0 %s - %s -" % (hx(b"sub"), hx(b"p")), "ADD PHASE 1 - %s %s 1" % (hx(b"px"), hx(b"pr"))]),
-            (KINH, ["OPEN 0", "INC 0 %s - - -" % hx(b"sub"), "FRAGATTR 0 4 -1 0 -1"])):
+            (KINH, ["OPEN 0", "INC 0 %s - - -" % hx(b"sub"), "FRAGATTR 0 4 -1 0 -1"]),
+            (KMOVREF, ["OPEN 0", "INC 0 %s - - %s" % (hx(b"sub"), hx(b"_S")), "ADD RAW 0 - %s 088 1" % hx(b"d"), "MFLUSH", "MOVE %s 1 2" % hx(b"d")]),
+            (KDELREF, ["OPEN 0", "INC 0 %s - - -" % hx(b"sub"), "ADD RAW 1 - %s 088 3" % hx(b"d"), "MFLUSH", "DELETE %s 8" % hx(b"d")]),
+            (KDEREF, ["OPEN 0", "INC 0 %s - - -" % hx(b"sub"), "ADD CONST 1 - %s 001 8 0" % hx(b"k"),
+                      "ADD PHASE 0 - %s %s 0 S 0 %s -1" % (hx(b"ph"), hx(b"in"), hx(b"k")), "MFLUSH", "DELETE %s c" % hx(b"k")])):
         c = Case("w%d" % len(wit))
         c.pretty = False
         c.cmds += cmds
@@ -1044,13 +1069,16 @@ def main():
     kinds_seen = {}
     for c in allc:
         r_ = res[c.cid]
-        forced = getattr(c, "wkey", None) if getattr(c, "wkey", None) in (KINC, KNSV, KREPRZ, KINH) else None
+        forced = getattr(c, "wkey", None) if getattr(c, "wkey", None) in (KINC, KNSV, KREPRZ, KINH, KMOVREF, KDEREF, KDELREF) else None
 
         def viol(key, desc, rep, found=True, forced=forced):
-            return chk.violation(forced if (forced and found) else key, desc, rep, found=found)
+            return chk.violation(forced if forced else key, desc, rep, found=(found or bool(forced)))
         replay = {"kind": "case", "commands": c.cmds + ["FLUSH", "END"],
                   "how": "feed the commands to harness/C07/rt.c <scratch-dir> (built by vlib.build_harness); compare SNAP A with SNAP B/C"}
         fl = [o for o in r_["ops"]]
+        if not hasattr(c, "A") and any(x.startswith("MOVE ") for x in c.cmds) and fl and fl[-1][1:] == ["-6", "-6"]:
+            viol(KMOVREF, "after gd_move of a fragment's reference field gd_metaflush fails with GD_E_INTERNAL_ERROR (the stale /REFERENCE name no longer carries the fragment's affixes), case %s" % c.cid, replay)
+            continue
         if not hasattr(c, "A"):
             # metaflush itself failed or nothing was written
             viol("metaflush/failed", "gd_metaflush failed for a database built by successful operations (case %s): ops=%s" % (c.cid, fl[-3:]), replay)
@@ -1069,6 +1097,12 @@ def main():
                     key = KSUB if subn else K15
                     viol(key, "after gd_metaflush the dirfile no longer opens (%s): %s; the database holds the double %016x" % (
                         "plain" if tag == "B" else "GD_PEDANTIC", S["errstr"][:160], (subn or quoted)[0]), dict(replay, reopen=tag, error=S["errstr"]))
+                elif "REFERENCE field code not found" in S["errstr"] and any(x.startswith("MOVE ") for x in c.cmds):
+                    viol(KMOVREF, "after gd_move of the reference field the fragment keeps the old name in /REFERENCE and the dirfile no longer opens (%s): %s" % (
+                        "plain" if tag == "B" else "GD_PEDANTIC", S["errstr"][:160]), dict(replay, reopen=tag, error=S["errstr"]))
+                elif "REFERENCE field code not found" in S["errstr"] and any(x.startswith("DELETE ") for x in c.cmds):
+                    viol(KDELREF, "gd_delete of a reference RAW field clears /REFERENCE of the other fragments in memory without marking them modified; the stale directive makes the dirfile unopenable (%s): %s" % (
+                        "plain" if tag == "B" else "GD_PEDANTIC", S["errstr"][:160]), dict(replay, reopen=tag, error=S["errstr"]))
                 elif "indecipherable" in S["errstr"] and c.std < 10 and hidden_late_type(A["lines"]):
                     viol(KHID, "gd_dirfile_standards accepted Standards Version %d for a database with the hidden %s field; the fragment written for that version no longer opens: %s" % (
                         c.std, hidden_late_type(A["lines"]), S["errstr"][:120]), dict(replay, reopen=tag, error=S["errstr"]))
@@ -1090,6 +1124,8 @@ def main():
                 n_snap += 1
                 if x == y:
                     continue
+                if x.startswith("G ") and not x.startswith("G 0 ") and re.sub(r" ref=\S+", "", x) == re.sub(r" ref=\S+", "", y):
+                    continue        # which RAW field an included fragment nominates is internal (gd_reference is compared)
                 if x.startswith("G ") and c.std < 6 and re.sub(r" enc=\w+", "", x) == re.sub(r" enc=\w+", "", y):
                     continue        # Standards Versions <= 5 have no /ENCODING directive
                 cx, cy = canon_from_snap(x) if x.startswith("F ") else None, canon_from_snap(y) if y.startswith("F ") else None
@@ -1097,8 +1133,11 @@ def main():
                     if normalise(cx, idx=True) == normalise(cy, idx=True):
                         continue
                     key = classify_diff(normalise(cx, idx=True), normalise(cy, idx=True), stable, gtext)
+                    if not key and deref_diff(cx, cy) and any(x_.startswith("DELETE ") and int(x_.split()[2], 16) & 4 for x_ in c.cmds):
+                        key = KDEREF
                     if key:
-                        viol(key, "numeric parameter changed by metaflush+reopen: %s -> %s" % (cx[:300], cy[:300]),
+                        c.flagged = getattr(c, "flagged", set()) | {cx.split()[1]}
+                        viol(key, "parameter changed by metaflush+reopen: %s -> %s" % (cx[:300], cy[:300]),
                                       dict(replay, before=cx, after=cy, reopen=tag))
                         continue
                     kind = cx.split()[0]
@@ -1121,7 +1160,7 @@ def main():
                               dict(replay, added=ce, got=c.A[nm]), found=False)
         for nm, ce in c.M.items():
             pr = pres.get((c.cid, nm))
-            if pr is None:
+            if pr is None or nm in getattr(c, "flagged", ()):
                 continue
             t = pr.split(" ", 1)
             mtext = unhx(t[0]) if not t[0].startswith("FAIL") else None
@@ -1135,7 +1174,7 @@ def main():
                               dict(replay, correspondence="print_entry vs _GD_FieldSpec", model=(mtext or b"").decode("latin1"), entry=ce), found=False)
             else:
                 nontriv.add(mtext)
-        if c.pure and not c.perm:
+        if c.pure and not c.perm and not getattr(c, "flagged", None):
             # the whole body: header lines, then exactly the model lines in entry order, then /REFERENCE
             want = []
             for nm, l in c.order:
@@ -1164,6 +1203,8 @@ def main():
                                   dict(replay, correspondence="parse_line vs _GD_ParseFieldSpec", line=ln.decode("latin1")), found=False)
                     continue
                 nm = lr.split()[1]
+                if nm in getattr(c, "flagged", ()):
+                    continue
                 if nm not in Bc:
                     viol("model/parse/name", "correspondence broken (reader): model parses line %r as field %s, the library has no such field" % (ln[:200], nm),
                                   dict(replay, correspondence="parse_line", line=ln.decode("latin1"), model=lr), found=False)
